@@ -155,9 +155,17 @@ pub fn run(ctx: &Ctx, st: &mut Stats) {
         st.eval(&C(&format!("{}mi-ss", run)), check);
         st.eval(&C(&format!("dy,{} {}", run, "HH24")), check);
     }
-    for n in [4096usize, 65_535, 65_536, 65_537, 100_000] {
+    for n in [4096usize, 65_535, 65_536, 65_537, 100_000, 131_071, 131_072, 1 << 20] {
         if ctx.tier != Tier::San {
-            st.eval(&C(&format!("DD{}MM", " ".repeat(n))), check);
+            let run = " ".repeat(n);
+            st.eval(&C(&format!("DD{}MM", run)), check);
+            // a long run inside pictures of 35, 36 (the documented maximum) and 37 elements: a run is one element whatever its length
+            for pairs in [16usize, 17] {
+                let head = "DD-".repeat(pairs);
+                st.eval(&C(&format!("{}{}MM", head, run)), check);
+                st.eval(&C(&format!("{}{}MM{}", head, run, "/")), check);
+                st.eval(&C(&format!("MM{}{}", run, head)), check);
+            }
         }
     }
     // 3. near-miss spellings
@@ -172,6 +180,22 @@ pub fn run(ctx: &Ctx, st: &mut Stats) {
     ] {
         st.eval(&C(p), check);
     }
+    // 3b. every non-ASCII character of the Basic Multilingual Plane (and a sample of the other planes), alone and inside
+    //     a picture: none belongs to the picture language, whatever its UTF-8 bytes look like after masking or folding
+    let cstep = ctx.tier.pick(257, 1, 1);
+    ctx.par(st, "every non-ASCII character (BMP; sampled astral), alone / between tokens / leading", true, 0, (0x11_0000 - 0x80) / cstep, |st, i, _| {
+        let cp = 0x80 + (i * cstep) as u32;
+        if cp > 0xFFFF && cp % 61 != 0 {
+            return;
+        }
+        if let Some(ch) = char::from_u32(cp) {
+            let mut b = [0u8; 4];
+            let s = ch.encode_utf8(&mut b);
+            st.eval(&C(s), check);
+            st.eval(&C(&format!("DD{}MM", s)), check);
+            st.eval(&C(&format!("{}YYYY", s)), check);
+        }
+    });
     // token-count limit: exactly 34..38 tokens of every kind
     for t in TOKENS.iter().filter(|t| !t.starts_with(' ')).step_by(ctx.tier.pick(6, 1, 1)) {
         for n in 30..=40usize {
